@@ -169,6 +169,12 @@ namespace xsimd
         XSIMD_INLINE batch<T, A> rotl(batch<T, A> const& self, STy other, requires_arch<generic>) noexcept
         {
             constexpr auto N = std::numeric_limits<T>::digits;
+            XSIMD_IF_CONSTEXPR(std::is_unsigned<T>::value)
+            {
+                // a count of 0 must not turn into a shift by the full width (undefined for the per-lane fallbacks)
+                using count_type = decltype(N - other);
+                return (self << other) | (self >> ((N - other) & count_type(N - 1)));
+            }
             return (self << other) | (self >> (N - other));
         }
 
@@ -177,6 +183,11 @@ namespace xsimd
         XSIMD_INLINE batch<T, A> rotr(batch<T, A> const& self, STy other, requires_arch<generic>) noexcept
         {
             constexpr auto N = std::numeric_limits<T>::digits;
+            XSIMD_IF_CONSTEXPR(std::is_unsigned<T>::value)
+            {
+                using count_type = decltype(N - other);
+                return (self >> other) | (self << ((N - other) & count_type(N - 1)));
+            }
             return (self >> other) | (self << (N - other));
         }
 
